@@ -20,6 +20,7 @@ import (
 	"strings"
 	"sync"
 	"sync/atomic"
+	"syscall"
 	"time"
 
 	"verif/harness/core"
@@ -299,6 +300,15 @@ func hashWorker(c *core.Ctx) {
 	res := core.NewShardResult()
 	wl := core.OpenWLog()
 	res.Seen("numcpu_gomaxprocs", fmt.Sprintf("NumCPU=%d GOMAXPROCS=%d", runtime.NumCPU(), runtime.GOMAXPROCS(0)))
+	// the descriptor limit of an ordinary login shell (1024), not the sandbox's 20000: lists of 1500 and
+	// 3000 files must still hash (descriptors are to be released as the work proceeds)
+	var rl syscall.Rlimit
+	if syscall.Getrlimit(syscall.RLIMIT_NOFILE, &rl) == nil && rl.Cur > 1024 {
+		rl.Cur = 1024
+		if syscall.Setrlimit(syscall.RLIMIT_NOFILE, &rl) == nil {
+			res.Seen("descriptor_limit", "1024")
+		}
+	}
 	switch c.Sub {
 	case "c04":
 		c04Worker(c, job, res, wl)
